@@ -418,6 +418,14 @@ def check(case, impl, repo=None):
                 i += 1
                 j += 1
                 continue
+            # bit casts: asint / asuint / asfloat (e) is as_type<T>(e) with T of the named scalar kind
+            if a in ("asint", "asuint", "asfloat") and b == "as_type" and H[i + 1:i + 2] == ["("] and M[j + 1:j + 2] == ["<"] and M[j + 3:j + 5] == [">", "("]:
+                want = {"asint": "int", "asuint": "uint", "asfloat": "float"}[a]
+                if not re.match(r"^%s[234]?$" % want, M[j + 2]):
+                    raise Mismatch("%s is written as_type<%s>: the bits are reinterpreted as another type than the source says; %s" % (a, M[j + 2], ctx(i, j)))
+                i += 1
+                j += 4
+                continue
             # a threaded global is a parameter in the Metal text: its qualified name becomes the parameter's name
             if (IDENT.match(a) or a == "::") and b in threaded_leaf:
                 k = i + (1 if a == "::" else 0)
@@ -490,7 +498,7 @@ def check(case, impl, repo=None):
             raise Mismatch(ctx(i, j))
     except Mismatch as e:
         ns = nonsimple_intrinsics(repo)
-        if any(x in ns for x in H[max(0, i - 40):i + 8]):
+        if "is written as_type<" not in str(e) and any(x in ns - {"asint", "asuint", "asfloat"} for x in H[max(0, i - 40):i + 8]):
             return None      # the lowering of this intrinsic (helper, operator, as_type<>) is outside the rules
         return "the Metal text is not the HLSL text under the threading / reference rules: " + str(e)
     except IndexError:
